@@ -1,5 +1,6 @@
 """C02 — Joining a task returns that task's own result once it finishes (structural clauses)."""
 from rules.common import start
+from rules import wave2
 from rules import pool
 
 
@@ -18,4 +19,6 @@ def run(tier):
     pool.affinity_rule(run, f, "C02-AFFINITY")
     from rules import abi
     abi.join_abi_rule(run, fx["hook/default"], fx.get("facade/default"), "C02-ABI")
+    # clauses added for the wave-2 seeds (rules/wave2.py; DESIGN 12a)
+    wave2.wait_no_state_gate_rule(run, f, "C02-NO-STATE-GATE")
     return run.finish()
